@@ -1679,9 +1679,10 @@ func (st *State) keyIndex(k Value) (*Term, bool) {
 		return kt, true
 	case "String":
 		idx := UF("skey", SInt, kt)
-		// injectivity of the index function, as an axiom: skey.inv(skey(s)) == s for every string s
-		bs := Var("q.skey.s", SString)
-		st.assume(Forall([]*Term{bs}, Eq(UF("skey.inv", SString, UF("skey", SInt, bs)), bs)))
+		// injectivity of the index function: skey.inv(skey(s)) == s, instantiated for every key term that
+		// is looked at (ground instances suffice for skolem-style invariants and keep quantifiers out of
+		// the queries; two keys with the same index are then equal by congruence)
+		st.assume(Eq(UF("skey.inv", SString, idx), kt))
 		return idx, true
 	}
 	return nil, false
